@@ -62,7 +62,8 @@ namespace Oomd {
 
 int Util::parseSize(const std::string& input, int64_t* output) {
   bool is_neg = false;
-  uint64_t size = 0;
+  // long double: byte counts above 2^53 must not be rounded
+  long double size = 0;
   size_t pos = 0;
   auto istr = input;
 
@@ -70,6 +71,10 @@ int Util::parseSize(const std::string& input, int64_t* output) {
   transform(istr.begin(), istr.end(), istr.begin(), tolower);
   auto new_end = std::remove_if(istr.begin(), istr.end(), isspace);
   istr.erase(new_end - istr.begin());
+
+  if (istr.empty()) {
+    return -1;
+  }
 
   // pop off leading sign
   if (istr[0] == '+') {
@@ -94,7 +99,12 @@ int Util::parseSize(const std::string& input, int64_t* output) {
     auto num = istr.substr(pos, unit_pos - pos);
     auto unit = istr.c_str()[unit_pos];
 
-    double v;
+    // a plain decimal: stold alone would also take exponents, hexadecimal
+    // notation, "nan" and "inf"
+    if (num.find_first_not_of("0123456789.") != std::string::npos) {
+      return -1;
+    }
+    long double v;
     try {
       v = std::stold(num, &end_pos);
     } catch (...) {
@@ -125,7 +135,12 @@ int Util::parseSize(const std::string& input, int64_t* output) {
     size += v;
     pos = unit_pos + 1;
   }
-  *output = is_neg ? -size : size;
+  // does not fit into the int64_t result
+  if (size >= 9223372036854775808.0L) {
+    return -1;
+  }
+  int64_t bytes = static_cast<int64_t>(size);
+  *output = is_neg ? -bytes : bytes;
   return 0;
 }
 
